@@ -65,6 +65,11 @@ impl Tape {
         v
     }
 
+    /// The fixed values of a replaying tape (what a watchdog needs to re-run the history).
+    pub fn vals_for_publish(&self) -> Vec<u32> {
+        self.fixed.clone()
+    }
+
     pub fn exhausted(&self) -> bool {
         self.rng.is_none() && self.pos >= self.fixed.len()
     }
